@@ -367,16 +367,14 @@ Definition stream_of (w h comps P pred : Z) (diffs bits vals : list Z) : list Z 
 Lemma obind_Ok : forall {A B} (a : A) (f : A -> outcome B), obind (Ok a) f = f a.
 Proof. reflexivity. Qed.
 
-Lemma encode_stream_inv : forall w h comps P pred diffs bits vals s,
-  encode_stream w h comps P pred diffs = Ok s ->
+Lemma encode_stream_fwd : forall w h comps P pred diffs bits vals,
   build_optimal (count_freqs diffs) = Ok (bits, vals) ->
-  lookup_ok bits 0 0 (zlen vals) = true /\ s = stream_of w h comps P pred diffs bits vals.
+  encode_stream w h comps P pred diffs =
+  if lookup_ok bits 0 0 (zlen vals) then Ok (stream_of w h comps P pred diffs bits vals) else Panic.
 Proof.
-  intros w h comps P pred diffs bits vals s Henc Hopt.
-  unfold encode_stream, build_optimal_table in Henc. rewrite Hopt in Henc.
-  rewrite obind_Ok in Henc. unfold build_table, fst, snd in Henc.
-  destruct (lookup_ok bits 0 0 (zlen vals)); [|discriminate Henc].
-  rewrite obind_Ok in Henc. apply Ok_inj in Henc. split; [reflexivity|]. subst s. reflexivity.
+  intros w h comps P pred diffs bits vals Hopt.
+  unfold encode_stream, build_optimal_table. rewrite Hopt. rewrite obind_Ok.
+  unfold build_table, fst, snd. destruct (lookup_ok bits 0 0 (zlen vals)); reflexivity.
 Qed.
 
 Definition covers (vals diffs : list Z) : Prop := Forall (fun d => In (diff_category d) vals) diffs.
@@ -394,7 +392,8 @@ Proof.
   intros w h comps P pred rows bits vals s Hw Hh Hc HP Hpred Hlen Hrows diffs Ediffs Hopt Hok Hcov Henc.
   rewrite ll_diffs_rows_map in Ediffs.
   pose proof (table_ok_facts _ _ Hok) as F.
-  destruct (encode_stream_inv _ _ _ _ _ _ _ _ _ Henc Hopt) as [Elk Hs]. subst s.
+  pose proof (encode_stream_fwd w h comps P pred diffs bits vals Hopt) as Hf. rewrite Henc in Hf.
+  destruct (lookup_ok bits 0 0 (zlen vals)) eqn:Elk; [|discriminate Hf]. apply Ok_inj in Hf. subst s.
   unfold stream_of.
   assert (Hbt : build_table bits vals = Ok (ht_of bits vals)) by (unfold build_table; rewrite Elk; reflexivity).
   (* the scan bytes *)
@@ -448,3 +447,58 @@ Proof.
   - rewrite <- Ediffs. unfold wd. rewrite <- E3. rewrite <- (app_nil_r (stuff bs)). apply rep_init. exact E2.
   - rewrite <- Hlen. rewrite Edec. reflexivity.
 Time Qed.
+
+(* ---------- jll_roundtrip ---------- *)
+Lemma select_loop_range : forall ps var best minv, 1 <= best <= 7 ->
+  Forall (fun p => 1 <= p <= 7) ps -> 1 <= select_loop ps var best minv <= 7.
+Proof.
+  induction ps as [|p ps IH]; intros var best minv Hb Hp; cbn [select_loop]; [assumption|].
+  inversion Hp; subst. destruct (var p <? minv); apply IH; assumption.
+Qed.
+Lemma select_best_range : forall w h comps rows, 1 <= select_best w h comps rows <= 7.
+Proof.
+  intros. unfold select_best. apply select_loop_range; [lia|].
+  repeat constructor; lia.
+Qed.
+
+Lemma params_ok_wf : forall w h comps P pixels, wf_image w h comps P pixels ->
+  params_ok w h comps P pixels = true.
+Proof.
+  intros w h comps P pixels (Hw & Hh & Hc & HP & Hlen & _). unfold params_ok.
+  rewrite Hlen. rewrite Z.leb_refl.
+  destruct (Z.ltb_spec 0 w); [|lia]. destruct (Z.ltb_spec 0 h); [|lia].
+  destruct (Z.leb_spec 2 P); [|lia]. destruct (Z.leb_spec P 16); [|lia].
+  destruct Hc; subst comps; reflexivity.
+Qed.
+
+(* the predictor the encoder ends up using (0 = automatic selection) *)
+Definition effective_pred (w h comps P pred : Z) (pixels : list Z) : Z :=
+  if pred =? 0 then select_best w h comps (pixels_to_rows w h comps P pixels) else pred.
+
+(* the hypothesis on the Huffman table the encoder builds for the image: it is a valid
+   canonical table (Kraft sum <= 1, distinct symbols) containing every category that occurs.
+   (C02_build_table_ok, i.e. that BuildOptimalHuffmanTable always produces such a table, is
+   not proved; the harness evaluates this predicate on every table the Go encoder emits.) *)
+Definition table_hyp (diffs : list Z) : Prop :=
+  exists bits vals, build_optimal (count_freqs diffs) = Ok (bits, vals) /\
+                    t81_table_ok bits vals = true /\ covers vals diffs.
+
+Theorem jll_roundtrip : forall w h comps P pred pixels s,
+  wf_image w h comps P pixels -> 0 <= pred <= 7 ->
+  table_hyp (ll_diffs w comps P (effective_pred w h comps P pred pixels)
+                      (pixels_to_rows w h comps P pixels)) ->
+  jll_encode w h comps P pred pixels = Ok s ->
+  jll_decode s = Ok (pixels, w, h, comps, P).
+Proof.
+  intros w h comps P pred pixels s Hwf Hpred (bits & vals & Hopt & Hok & Hcov) Henc.
+  pose proof (rows_facts w h comps P pixels Hwf) as Hrf. cbv zeta in Hrf.
+  destruct Hrf as (Hlen & Hrows & Hback).
+  pose proof Hwf as (Hw & Hh & Hc & HP & _).
+  unfold jll_encode in Henc. rewrite (params_ok_wf _ _ _ _ _ Hwf) in Henc. cbn [negb] in Henc.
+  destruct (Z.ltb_spec pred 0); [lia|]. destruct (Z.ltb_spec 7 pred); [lia|]. cbn [orb] in Henc.
+  fold (effective_pred w h comps P pred pixels) in Henc.
+  assert (Hep : 1 <= effective_pred w h comps P pred pixels <= 7).
+  { unfold effective_pred. destruct (Z.eqb_spec pred 0); [apply select_best_range | lia]. }
+  rewrite <- Hback at 1.
+  eapply ll_decode_stream; try eassumption. reflexivity.
+Qed.
